@@ -197,7 +197,8 @@ theorem gen_builtin_facts :
     `F.pcfg` of the pipeline, `ts` the lexer's output, whose only EOF token has the empty value) -/
 theorem parse_good_gen {L : Node → Prop} (hT : cfg.tb = Gen.parserTables)
     (hnum : ∀ s v, cfg.num s = some (.int v) → 0 ≤ v ∧ v < 9223372036854775808)
+    (hfloat : ∀ s b, cfg.num s = some (.float b) → floatLit b = true)
     (ts : List Token) (hE : EofPlain ts) (t : Node) (h : parse cfg ts = .ok t) (hl : LoopsOK L t) : Good L t :=
-  parse_good cfg ⟨hnum, by rw [hT]; exact gen_builtin_facts.2⟩ (by rw [hT]; exact gen_builtin_facts.1) ts hE t h hl
+  parse_good cfg ⟨hnum, hfloat, by rw [hT]; exact gen_builtin_facts.2⟩ (by rw [hT]; exact gen_builtin_facts.1) ts hE t h hl
 
 end ExprModel.Parser
